@@ -4,6 +4,7 @@ from ..gens import *
 
 ID = "C17"
 LEAN_MODULE = "Ucfg.Props.C17"
+LEVEL_TEXT = 'value_never_panics and invalid_config_rejected for every string and config, plain-string scanner theorems; Spec.C17 (JSON documents parse to their value) as oracle; render/parse round trip compared (partial); known finding D4.'
 CORRESPONDENCE = "Parse.valueWithConfig ~ parse.Value / parse.ValueWithConfig"
 RULE = ("(a) kind 'json': random JSON documents (nesting <= 5; strings over quotes, backslashes incl. trailing, controls, non-ASCII, "
         "astral; integer/float literals incl. 64-bit boundaries) rendered compact, indented and with random extra whitespace; "
